@@ -667,15 +667,14 @@ type vC19Script struct {
 	seen   *dns.EDNS0_SUBNET
 	opts   []dns.EDNS0
 	hasOPT bool
-	floors [2]int
-	r      *rand.Rand
+	gen    func(seen *dns.EDNS0_SUBNET) ([]dns.EDNS0, bool)
 }
 
 func (s *vC19Script) serve(ctx context.Context, ch *middleware.Chain) {
 	req := ch.Request.Msg()
 	s.called = true
 	s.seen = vC19FirstECS(req)
-	s.opts, s.hasOPT = vC19GenRespOpts(s.r, s.seen, s.floors)
+	s.opts, s.hasOPT = s.gen(s.seen)
 	resp := new(dns.Msg)
 	resp.SetReply(req)
 	resp.RecursionAvailable = true
@@ -810,6 +809,7 @@ func TestVerifC19Cache(t *testing.T) {
 	defer tr.f.Close()
 	r := rand.New(rand.NewSource(int64(vC19EnvInt("VERIF_SEED", 1))))
 	n := vC19EnvInt("VERIF_N", 300)
+	vC19LeakReplay(tr)
 	for c := 0; c < n; c++ {
 		if c%4 == 3 {
 			vC19DenialCase(tr, r)
@@ -819,16 +819,76 @@ func TestVerifC19Cache(t *testing.T) {
 	}
 }
 
+// one planned query of a history
+type vC19Planned struct {
+	cl           vC19Client
+	qi           int
+	cd, aged     bool
+	upTTL, rfTTL int
+	upGen, rfGen func(seen *dns.EDNS0_SUBNET) ([]dns.EDNS0, bool)
+}
+
+// the history of Properties.scoped_only_inside_scope_refuted (Proofs_cache.leak_ops), replayed on
+// the real code on every run
+func vC19LeakReplay(tr *vC19Trace) {
+	b := vC19BuildArgs{enabled: true}
+	none := func(*dns.EDNS0_SUBNET) ([]dns.EDNS0, bool) { return nil, false }
+	echo24 := func(seen *dns.EDNS0_SUBNET) ([]dns.EDNS0, bool) {
+		return []dns.EDNS0{&dns.EDNS0_SUBNET{Code: dns.EDNS0SUBNET, Family: 1, SourceNetmask: 24, SourceScope: 24, Address: vC19V4(203, 0, 113, 0)}}, true
+	}
+	a := vC19Client{remote: vC19V4(198, 51, 100, 10), hasOPT: true,
+		opts: []dns.EDNS0{&dns.EDNS0_SUBNET{Code: dns.EDNS0SUBNET, Family: 1, SourceNetmask: 24, Address: vC19V4(203, 0, 113, 0)}}}
+	plan := []vC19Planned{
+		{cl: vC19Client{remote: vC19V4(198, 51, 100, 9), hasOPT: true}, upTTL: 60, rfTTL: 60, upGen: none, rfGen: none},
+		{cl: a, aged: true, upTTL: 60, rfTTL: 60, upGen: none, rfGen: echo24},
+		{cl: vC19Client{remote: vC19V4(198, 51, 100, 11), hasOPT: true}, upTTL: 60, rfTTL: 60, upGen: none, rfGen: none},
+	}
+	vC19ExecHistory(tr, b, 0, true, func(*ecs.Policy, [2]int) []vC19Planned { return plan }, "cache-replay-refresh-leak")
+}
+
 func vC19HistoryCase(tr *vC19Trace, r *rand.Rand) {
 	b := vC19GenCacheArgs(r)
 	ecsMax := []time.Duration{0, 30 * time.Second, 300 * time.Second, 7200 * time.Second, 2 * time.Second}[r.Intn(5)]
 	prefetch := r.Intn(3) != 0
-	// a limit below the 5 s TTL floor: entries live 2 s, so keep the history short, never age, and
-	// drop the case if the machine stalled
-	shortLived := ecsMax > 0 && ecsMax < 5*time.Second
-	started := time.Now()
 	// refreshes carrying a client subnet option (a listed finding) only in a minority of histories
 	allowECSRefresh := r.Intn(8) == 0
+	shortLived := ecsMax > 0 && ecsMax < 5*time.Second
+	vC19ExecHistory(tr, b, ecsMax, prefetch, func(pol *ecs.Policy, floors [2]int) []vC19Planned {
+		clients := vC19GenClients(r, b)
+		nops := 5 + r.Intn(9)
+		if shortLived {
+			nops = 3 + r.Intn(3)
+		}
+		gen := func(seen *dns.EDNS0_SUBNET) ([]dns.EDNS0, bool) { return vC19GenRespOpts(r, seen, floors) }
+		var plan []vC19Planned
+		for i := 0; i < nops; i++ {
+			pl := vC19Planned{cl: clients[r.Intn(len(clients))], qi: r.Intn(2), cd: r.Intn(10) == 0, aged: r.Intn(3) == 0,
+				upTTL: []int{20, 60, 300, 3600, 86400, 200000}[r.Intn(6)], rfTTL: []int{20, 300, 86400, 200000}[r.Intn(4)], upGen: gen, rfGen: gen}
+			// would this client's subnet be forwarded?  keep subnet-carrying refreshes to the
+			// histories that are meant to have them
+			ca, _ := netip.AddrFromSlice(pl.cl.remote)
+			forwards := false
+			if pol.Allows(ca.Unmap()) {
+				for _, x := range pl.cl.opts {
+					if s, ok := x.(*dns.EDNS0_SUBNET); ok && pol.Clamp(s) != nil {
+						forwards = true
+					}
+				}
+			}
+			if (forwards && !allowECSRefresh) || shortLived {
+				pl.aged = false
+			}
+			plan = append(plan, pl)
+		}
+		return plan
+	}, "cache-history")
+}
+
+func vC19ExecHistory(tr *vC19Trace, b vC19BuildArgs, ecsMax time.Duration, prefetch bool, mkPlan func(*ecs.Policy, [2]int) []vC19Planned, kind string) {
+	// a limit below the 5 s TTL floor: entries live 2 s, so such histories are short, never aged, and
+	// dropped if the machine stalled
+	shortLived := ecsMax > 0 && ecsMax < 5*time.Second
+	started := time.Now()
 	c, e, _ := vC19NewCache(b, ecsMax, prefetch)
 	defer c.Stop()
 	pol := c.ecsPolicy
@@ -836,12 +896,8 @@ func vC19HistoryCase(tr *vC19Trace, r *rand.Rand) {
 	if pol != nil {
 		floors = [2]int{int(pol.MinScopeV4), int(pol.MinScopeV6)}
 	}
-	clients := vC19GenClients(r, b)
+	plan := mkPlan(pol, floors)
 	names := []string{"www.geo.test.", "cdn.geo.test."}
-	nops := 5 + r.Intn(9)
-	if shortLived {
-		nops = 3 + r.Intn(3)
-	}
 	var ops []string
 	var desc []map[string]any
 	known := map[int]vC19Answer{}
@@ -854,13 +910,10 @@ func vC19HistoryCase(tr *vC19Trace, r *rand.Rand) {
 		}
 	}
 	nextID := 1
-	for i := 0; i < nops; i++ {
-		cl := clients[r.Intn(len(clients))]
-		qi := r.Intn(len(names))
-		cd := r.Intn(10) == 0
-		aged := r.Intn(3) == 0
-		up := &vC19Script{id: nextID, ttl: []int{20, 60, 300, 3600, 86400, 200000}[r.Intn(6)], floors: floors, r: r}
-		rf := &vC19Script{id: nextID + 1, ttl: []int{20, 300, 86400, 200000}[r.Intn(4)], floors: floors, r: r}
+	for i, pl := range plan {
+		cl, qi, cd, aged := pl.cl, pl.qi, pl.cd, pl.aged
+		up := &vC19Script{id: nextID, ttl: pl.upTTL, gen: pl.upGen}
+		rf := &vC19Script{id: nextID + 1, ttl: pl.rfTTL, gen: pl.rfGen}
 		nextID += 2
 
 		req := new(dns.Msg)
@@ -903,9 +956,6 @@ func vC19HistoryCase(tr *vC19Trace, r *rand.Rand) {
 					}
 				}
 			}
-		}
-		if (fwProbe != nil && !allowECSRefresh) || shortLived {
-			aged = false
 		}
 
 		// entries before; age them into the prefetch window for this query only
@@ -1085,13 +1135,13 @@ func vC19HistoryCase(tr *vC19Trace, r *rand.Rand) {
 		tr.emit(map[string]any{"k": "cache-inconclusive", "inconclusive": true, "desc": "stall during a short-lived history"})
 		return
 	}
-	k := "cache-history"
+	k := kind
 	if pol == nil {
-		k = "cache-history-policy-off"
+		k += "-policy-off"
 	} else if scopedHits > 0 {
-		k = "cache-history-scoped-hits"
+		k += "-scoped-hits"
 	} else if scopedStores > 0 {
-		k = "cache-history-scoped"
+		k += "-scoped"
 	}
 	if refreshes > 0 {
 		k += "+refresh"
@@ -1196,6 +1246,12 @@ func vC19DenialCase(tr *vC19Trace, r *rand.Rand) {
 			break // a marked NXDOMAIN ends the chase
 		}
 	}
+	// the case only the context flag covers: a CD root whose alias answer comes back with CD
+	// cleared, so the follow-up sub-query carries neither CD nor a subnet option
+	cdFlipTemplate := len(nodes) >= 2 && nodes[0].kind != 2 && r.Intn(3) == 0
+	if cdFlipTemplate {
+		nodes[0].flipCD = true
+	}
 	byName := map[string]*vC19Node{}
 	for _, nd := range nodes {
 		byName[nd.name] = nd
@@ -1259,6 +1315,10 @@ func vC19DenialCase(tr *vC19Trace, r *rand.Rand) {
 	if r.Intn(2) == 0 { // an ordinary root: no subnet option, no CD
 		cl.opts, cl.hasOPT = nil, r.Intn(2) == 0
 		cd = false
+	}
+	if cdFlipTemplate {
+		cl.opts, cl.hasOPT = nil, true
+		cd = true
 	}
 	req := new(dns.Msg)
 	req.SetQuestion(nodes[0].name, dns.TypeA)
